@@ -13,7 +13,7 @@ import hashlib
 import json
 
 from simkit import base, driver, world
-from simkit.canon import sort_result, is_exc
+from simkit.canon import sort_result, is_exc, builtin_representative_differs
 
 DEATH_PHASES = ['kill_before_send', 'kill_after_send', 'truncate_reply', 'die_by_exception']
 TRUNC_VARIANTS = [{'n': 1}, {'frac': 0.5}, {'n': 1, 'from_end': True}]
@@ -228,6 +228,8 @@ def judge(case, ref, run):
             if res == ['NOSCRIPT']:
                 continue        # construction of this Script failed and was judged there
             same = sort_result(res) == sort_result(refres)
+            if not same and kind == 'probe' and builtin_representative_differs(op['p'], sort_result(res), sort_result(refres)):
+                same = True     # listed C16 finding (arbitrary representative of a builtin instance), not a recovery failure
             if same:
                 if sid not in doomed and stats['deaths']:
                     stats['recovered_probes'] += 1
